@@ -10,6 +10,7 @@ sys.path.insert(0, "tools/lib")
 import vlib
 vlib.coq_makefile()
 PY
-(cd coq && timeout 3000 make -j"$(nproc)" --no-print-directory >/dev/null) || { echo "coq build failed"; exit 1; }
+# -k: one broken file must not prevent the others from being built; each check re-makes what it needs and reports its own failures
+(cd coq && timeout 3000 make -k -j"$(nproc)" --no-print-directory >/dev/null 2>build_setup.log) || echo "coq build had failures (see coq/build_setup.log); checks will report them"
 echo '{"seed":0,"n":4}' | PYTHONPATH="${VERIF_REPO:-/repo}" NUMBA_CACHE_DIR=$PWD/build/numba /venv/bin/python tools/impl/c02.py >/dev/null 2>&1 || true
 echo setup ok
